@@ -300,7 +300,12 @@ def check_affects(ctx, out):
             # the loop the fallback is evaluated in
             loops_here = cfg.loops_containing(bi)
             its = [x for x in util.loop_of_next(ctx, vb, r"\.blocks\b") if x[0] in loops_here]
-            if its and (P.has_call(labs, r"hash_map::Iter<.*Iterator>::next$") or P.has_path(labs, "blocks")) and not P.has_call(labs, r"HashMap::<K, V, S, A>::(get|entry|get_mut)$|hash_map::Entry"):
+            loopkeys = set()
+            for hh, bl, nb in its:
+                nt = vb.blocks[nb]["term"]
+                loopkeys |= {l for l in ctx.prov.read_local(vb, nt["dest"]["l"], ("0", "0")) if l[0] != "const"}
+            nonconst = {l for l in labs if l[0] not in ("const", "fn")}
+            if its and nonconst and nonconst <= loopkeys:
                 ok = True
             elif labs:
                 out.viol("C01.key", "C01.key|fallback", ctx.where(vb, t["span"]),
